@@ -532,8 +532,15 @@ package ugo
 // them) no Go panic. Not swept yet: append, bytes, chars, contains, printf,
 // sprintf, :makeArray.
 
-//@ func builtinDeleteFunc, builtinCopyFunc, builtinRepeatFunc, builtinLenFunc, builtinCapFunc, builtinSortFunc, builtinSortReverseFunc, builtinErrorFunc, builtinTypeNameFunc, builtinBoolFunc, builtinIntFunc, builtinUintFunc, builtinFloatFunc, builtinCharFunc, builtinStringFunc, builtinPrintlnFunc, builtinGlobalsFunc, builtinIsErrorFunc, builtinIsIntFunc, builtinIsUintFunc, builtinIsFloatFunc, builtinIsCharFunc, builtinIsBoolFunc, builtinIsStringFunc, builtinIsBytesFunc, builtinIsMapFunc, builtinIsSyncMapFunc, builtinIsArrayFunc, builtinIsUndefinedFunc, builtinIsFunctionFunc, builtinIsCallableFunc, builtinIsIterableFunc
+//@ func builtinDeleteFunc, builtinCopyFunc, builtinRepeatFunc, builtinLenFunc, builtinCapFunc, builtinErrorFunc, builtinTypeNameFunc, builtinBoolFunc, builtinIntFunc, builtinUintFunc, builtinFloatFunc, builtinCharFunc, builtinStringFunc, builtinPrintlnFunc, builtinGlobalsFunc, builtinIsErrorFunc, builtinIsIntFunc, builtinIsUintFunc, builtinIsFloatFunc, builtinIsCharFunc, builtinIsBoolFunc, builtinIsStringFunc, builtinIsBytesFunc, builtinIsMapFunc, builtinIsSyncMapFunc, builtinIsArrayFunc, builtinIsUndefinedFunc, builtinIsFunctionFunc, builtinIsCallableFunc, builtinIsIterableFunc
 //@ requires $args
+//@ property C19
+
+// sort / sortReverse: the comparison closure handed to sort.Slice is checked
+// for arbitrary in-range index pairs; an array argument holds no nil element.
+//@ func builtinSortFunc, builtinSortReverseFunc
+//@ params arg
+//@ requires arg != nil && specElemsOK(arg)
 //@ property C19
 
 // ---------------------------------------------------------------------------
